@@ -15,6 +15,8 @@
 package moss
 
 import (
+	"bytes"
+
 	"github.com/couchbase/moss"
 )
 
@@ -30,7 +32,19 @@ type Iterator struct {
 }
 
 func (x *Iterator) Seek(seekToKey []byte) {
-	_ = x.iter.SeekTo(seekToKey)
+	// moss's SeekTo rebuilds its cursors when the target is behind the
+	// current position (or too far ahead) and then surfaces entries that
+	// a newer segment deleted, so start a fresh iterator at the target.
+	if bytes.Compare(seekToKey, x.start) < 0 {
+		seekToKey = x.start
+	}
+	iter, err := x.ss.StartIterator(seekToKey, x.end, moss.IteratorOptions{})
+	if err != nil {
+		x.k, x.v, x.err = nil, nil, err
+		return
+	}
+	_ = x.iter.Close()
+	x.iter = iter
 
 	x.k, x.v, x.err = x.iter.Current()
 }
